@@ -102,7 +102,7 @@ def check_l1(case):
     tie = bool(np.any(np.ptp(np.sort(D, axis=1)[:, :2], axis=1) == 0)) if k >= 2 else False
     dup = facts["n_distinct"] < n
     labels = ["L1", case["dtype"], "offset=%g" % float(case.get("offset", 0.0)), "init=" + facts["init"], "dup" if dup else "nodup", "tie" if tie else "notie",
-              "n==k" if n == k else "n>k", "k=1" if k == 1 else "k>=2", "used-clusters<k" if len(set(L.tolist())) < k else "all-clusters-used"]
+              "n==k" if n == k else "n>k", "k=1" if k == 1 else ("k>=2" if k < 30 else "k>=30"), "used-clusters<k" if len(set(L.tolist())) < k else "all-clusters-used"]
     return Outcome(labels, dup or n == k or facts["init"] == "array" or tie)
 
 
@@ -148,6 +148,9 @@ _cell = st.integers(-64, 64).map(lambda v: v / 8.0)
 def _cases(draw, tier="quick"):
     d = draw(st.integers(1, 3))
     k = draw(st.integers(1, 6))
+    if draw(st.integers(0, 7)) == 0:
+        # many centres in few dimensions (30-40 clusters, as many distinct points at least)
+        k, d = draw(st.integers(30, 40)), max(d, 2)
     row = st.lists(_cell, min_size=d, max_size=d).map(tuple)
     pool = draw(st.lists(row, min_size=k, max_size=k + draw(st.integers(0, 8)), unique=True))
     nextra = draw(st.integers(0, 16 if tier == "quick" else 40))
